@@ -34,15 +34,19 @@ class Upper:
 class SinkTransport:
     """Minimal transport: collects writes into the shared log."""
 
-    def __init__(self, log):
+    def __init__(self, log, clock=None, on_write=None):
         self.log = log
         self.closing = False
         self.writes = []
+        self.clock = clock
+        self.on_write = on_write
 
     def write(self, data):
         data = bytes(data)
         self.writes.append(data)
-        self.log.append(("wr", data))
+        self.log.append(("wr", data, self.clock() if self.clock else None))
+        if self.on_write is not None:
+            self.on_write(data)
 
     def is_closing(self):
         return self.closing
@@ -72,12 +76,12 @@ def decode_writes(log_slice):
     return out
 
 
-def new_protocol():
+def new_protocol(clock=None, on_write=None):
     import bellows.ash as ash
 
     log = []
     up = Upper(log)
     proto = ash.AshProtocol(up)
-    tr = SinkTransport(log)
+    tr = SinkTransport(log, clock, on_write)
     proto.connection_made(tr)
     return proto, up, tr, log
